@@ -118,6 +118,8 @@ def auto_replay(v, path):
     """replay file of either engine"""
     if "# route B (callback):" in open(path).read():
         return routes_replay(v, path)
+    if mc_checks.IDENTITY_MARK in open(path).read():
+        return mc_checks.identity_replay(v, path)
     if snap_suite.MC_CLOCK_MARK in open(path).read():
         return snap_suite.mc_clock_replay(v, path)
     lines = [l.strip() for l in open(path) if l.strip() and not l.startswith("#")]
@@ -270,7 +272,7 @@ PROPS = {
     "C11": {"ready": True, "replay": auto_replay, "partial": PARTIAL_D1,
             "suites": [mc("mc_cache_modes", dict(record=0.2, identical_msgs=0.5, depth=(2, 4)),
                           cross=[("dfs", "full"), ("dfs", "partial"), ("dfs", "disabled"), ("bfs", "full"), ("bfs", "disabled")],
-                          n_quick=200, extra_gen=lambda rng, tier: mc_checks.gen_crash_merge(rng, tier) + mc_checks.gen_payload_twins(rng, tier)), mc_checks.rand_cache_probe, py_suite.order_probe]},
+                          n_quick=200, extra_gen=lambda rng, tier: mc_checks.gen_crash_merge(rng, tier) + mc_checks.gen_payload_twins(rng, tier)), mc_checks.rand_cache_probe, py_suite.order_probe, mc_checks.identity_probe]},
     "C12": {"ready": True, "replay": mc_checks.replay,
             "suites": [mc("mc_fates", dict(p_fault=0.7, p_link=0.5, p_send=0.6, p_timer=0.1, nodes=(2, 3), procs=(2, 3), depth=(2, 4)),
                           refenum=True, nontrivial=lambda st: st["faults"] and st["multi_states"], extra_gen=mc_checks.gen_mc_link_matrix)]},
